@@ -11,7 +11,9 @@ RULE = ("case = (generated program: function or DBC hierarchy with one member ki
         "foreign decorators, invariants, __init__ contracts; one call and one attribute assignment per class of the "
         "hierarchy; one truth assignment "
         "out of ALL 2^n for n<=6 conditions, sampled above). non-trivial = at least two conditions falsy at once, or "
-        ">=2 precondition groups tried; distinct = hash(program, ops, assignment).")
+        ">=2 precondition groups tried; distinct = hash(program, ops, assignment). On async callables every condition and "
+        "capture is independently a plain function, a coroutine function, or a function returning a coroutine / awaitable "
+        "object / done Future (mixed kinds within one stack).")
 ASSUMPTIONS = ["reference interpreter transcribed from C01/C02/C03/C04/C08/C16 statements (vf/progmodel/ref.py)",
                "conditions are named functions or in-decorator lambdas that only log and answer from the truth table",
                "snapshots in diamonds are declared below the join only (duplicate-name rejection is unspecified there)"]
@@ -40,6 +42,16 @@ def strategy(draw):
         if op["op"] == "new" and any(i for c in case["program"].get("classes", []) for i in c.get("invs", [])):
             ops.append({"op": "setattr", "k": op["k"]})
     case["ops"] = ops
+    # on async callables the conditions and captures of one stack come in mixed kinds - plain functions, coroutine
+    # functions, functions returning a coroutine / an awaitable object / a done Future: the order is that of the stack
+    p = case["program"]
+    for f in list(p.get("funcs", [])) + [m for c in p.get("classes", []) for m in c.get("members", [])]:
+        if f.get("async"):
+            for d in f.get("decos", []):
+                if d["t"] in ("require", "ensure", "snapshot") and not d.get("made") and draw(st.integers(0, 1)) == 0:
+                    d["flavor"] = draw(st.sampled_from(["corofunc", "corofunc", "ret_coro", "awaitable"] + (
+                        ["future"] if d["t"] != "snapshot" else [])))
+                    d["lam"] = False
     return case
 
 
